@@ -42,6 +42,7 @@ theorem quiet_op {s : AState} {fin : List Nat} (hqe : s.chan.queue = []) (hpk : 
     cases hk : r.kind <;> simp only [hk] at hnone hst
     case send m => simp [Chan.isParked, hpk] at hnone
     case trySend m => simp [Chan.isParked, hpk] at hnone
+    case tryForce m => simp [Chan.isParked, hpk] at hnone
     case await =>
       unfold latchRes at hnone
       cases hl : s.latch <;> simp [hl] at hnone
